@@ -215,8 +215,8 @@ func ruleT3(c *Ctx) {
 		fd := c.Decls[fn]
 		okIdx := false
 		if fd != nil {
-			s := strings.ReplaceAll(c.src(fd.Body), " ", "")
-			okIdx = strings.Contains(s, "int(t)-1") || strings.Contains(s, "int(newhdr.Type)-1")
+			s := c.src(fd.Body)
+			okIdx = patIn(s, "int(@t) - 1") || patIn(s, "int(@n.Type) - 1")
 		}
 		c.check(okIdx, "T3", fn+":index", token.NoPos, "slot index is Type-1 (no slot for HdrNone)")
 	}
